@@ -19,7 +19,6 @@ Reference objects.  The model is a longest-match lexer over characters followed 
 recursive-descent parser over tokens; that Lark's Earley parser computes the same tree is what the
 `parse` suite compares on every run.  Import-free.
 
-Outside the model (the driver answers `unmodelled`): a backslash inside a regex term.
 -/
 namespace Model.Match
 
@@ -80,6 +79,18 @@ def numLen (cs : List Char) : Nat :=
       ip.length + 1 + fp.length + expLen (r2.dropWhile isDigit)
     | _ => ip.length + expLen r1
 
+/-- `REGEX_INNER "/"` after the opening slash: `([^\/\\]|\\.)*` followed by the closing slash (`.` does not
+    match a newline).  Returns the number of characters up to and including the closing slash. -/
+def reInner : Nat → List Char → Option Nat
+  | 0, _ => none
+  | _ + 1, [] => none
+  | _ + 1, '/' :: _ => some 1
+  | f + 1, '\\' :: cs =>
+    (match cs with
+     | x :: r => if x != '\n' then (reInner f r).map (· + 2) else none
+     | [] => none)
+  | f + 1, _ :: cs => (reInner f cs).map (· + 1)
+
 /-- the token that starts with `c` (followed by `cs`) and how many characters of `cs` it takes -/
 def tokenAt (c : Char) (cs : List Char) : Option (Tok × Nat) :=
   if c == '[' then some (.lb, 0)
@@ -118,10 +129,9 @@ def tokenAt (c : Char) (cs : List Char) : Option (Tok × Nat) :=
     let body := cs.takeWhile nameCh
     if body.isEmpty then none else some (.reference body, body.length)
   else if c == '/' then
-    let body := cs.takeWhile (· != '/')
-    match cs.dropWhile (· != '/') with
-    | '/' :: _ => some (.regex ('/' :: body ++ ['/']), body.length + 1)
-    | _ => none
+    match reInner (cs.length + 1) cs with
+    | some n => some (.regex ('/' :: cs.take n), n)
+    | none => none
   else if c == '-' && cs.head? == some '>' then some (.when_, 1)
   else if c == '+' || c == '-' then
     let n := numLen cs
